@@ -86,7 +86,7 @@ def parse_model(line):
     sp = lambda s: [x for x in s.split(",") if x != ""]
     return {"vals": sp(d["vals"]), "coeffs": [sp(x) for x in d["coeffs"].split("/")] if d["coeffs"] != "" or True else [],
             "seq": sp(d["seq"]), "multi": d["multi"], "grouped": d["grouped"], "single": sp(d["single"]),
-            "nvals": sp(d["nvals"]), "nm": sp(d["nm"]), "nmmulti": d["nmmulti"]}
+            "nvals": sp(d["nvals"]), "nm": sp(d["nm"]), "nmmulti": d["nmmulti"], "nmsingle": sp(d.get("nmsingle", ""))}
 
 
 def hx(z):
@@ -193,6 +193,20 @@ def explore(ctx):
             diffs.append("nm_ok=false")
         if isinstance(r["nm_ok"], bool):
             hist["nm_none"] += 1
+        # non-membership, single-step procedure: point for point against the model, and it must verify while every epoch so
+        # far has at most one element and y is never touched (theorems C14_single_add_correct_nm / C14_single_del_correct_nm)
+        if isinstance(r.get("nmsingle_ok"), list):
+            hist["nmsingle"] = hist.get("nmsingle", 0) + 1
+            if not all(r["nmsingle_ok"]):
+                diffs.append(f"nmsingle_ok={r['nmsingle_ok']}")
+            small2 = True
+            for i in range(1, k + 1):
+                A, D = c["hist"][i - 1]
+                if len(A) + len(D) > 1 or c["y"] in A or c["y"] in D:
+                    small2 = False
+                if small2 and not r["nmsingle_verify"][i]:
+                    oracle.append(f"non-membership single-step update (every epoch <= 1 element, y untouched) does not verify after {i} epochs")
+                    break
         if len(samples) < 6 and (len(c["hist"]) >= 2 or len(samples) < 2) and rng.random() < 0.05:
             samples.append({"case": case, "impl": {k2: r[k2] for k2 in ("seq_verify", "multi_verify", "grouped_verify", "single_verify", "nm_verify", "coeff_lens")}})
         if single_wrong_multi:
@@ -210,7 +224,7 @@ def explore(ctx):
     return {
         "evaluations": len(cases),
         "distinct_nontrivial": len(distinct),
-        "rule": "cases = accumulator histories of 1..4 (thorough 1..6) epochs with 0..5 additions and 0..5 deletions each (empty sides, singletons, repeated elements), tracked element y outside / added / deleted, random grouping into multi-batch calls, random and special scalars (0,1,2,r-1,r-2, small); each compares the manager's values and coefficient vectors, every batch / multi-batch / grouped / single-step membership update and every non-membership batch / multi-batch update point-by-point (impl point == G * model exponent) and evaluates verify()/from-scratch equality on the implementation; distinct by (history, y mod 1000, grouping)",
+        "rule": "cases = accumulator histories of 1..4 (thorough 1..6) epochs with 0..5 additions and 0..5 deletions each (empty sides, singletons, repeated elements), tracked element y outside / added / deleted, random grouping into multi-batch calls, random and special scalars (0,1,2,r-1,r-2, small); each compares the manager's values and coefficient vectors, every batch / multi-batch / grouped / single-step membership update and every non-membership batch / multi-batch / single-step update point-by-point (impl point == G * model exponent) and evaluates verify()/from-scratch equality on the implementation; distinct by (history, y mod 1000, grouping)",
         "samples": samples,
         "histograms": hist,
         "failures": failures,
